@@ -189,7 +189,7 @@ def mutants(sp, doc):
     # header
     for key in ("type", "data", "version"):
         out.append(("header:delete-" + key, [key], _del(doc, [key])))
-    for v, nm in (("99.99", "incompatible"), ("2.0", "newer-major"), ("2.1", "newer-major-same-minor"), ("1.2", "newer-minor"), (5, "non-string"), ("abc", "non-numeric")):
+    for v, nm in (("99.99", "incompatible"), ("2.0", "newer-major"), ("2.1", "newer-major-same-minor"), ("1.2", "newer-minor"), ("1.10", "newer-minor-two-digits"), ("1.100", "newer-minor-three-digits"), ("1.11", "newer-minor-eleven"), ("10.0", "newer-major-two-digits"), (5, "non-string"), ("abc", "non-numeric")):
         out.append(("header:version-" + nm, ["version"], _set(doc, ["version"], v)))
     for v, nm in ((5, "non-string"), ("NoSuchPrimitive", "unregistered"), ([], "list")):
         out.append(("header:type-" + nm, ["type"], _set(doc, ["type"], v)))
